@@ -26,7 +26,7 @@
              3 a bool (formatAttrs panics), 4 uint z.  The tables are empty when the has-flag is 0 (nil func).
    Verdict tag = 0 for a trivial case, else 256*op + branch bits (listed per op). *)
 From Coq Require Import FMapPositive.
-From MM Require Import Base.Num Base.GCGraph Base.GCReach Model.Marks Spec.Dfs Model.Order Spec.Scc Model.Graph Model.Subgraph Model.Dot.
+From MM Require Import Base.Num Base.GCGraph Base.GCReach Model.Marks Spec.Dfs Model.Order Spec.Scc Model.Scc Model.Graph Model.Subgraph Model.Dot.
 Open Scope Z_scope.
 
 Definition pfail {A} : parser A := fun _ => None.
@@ -171,6 +171,18 @@ Fixpoint cof_match (m : cmap) (obs : list Z) (v : N) : bool :=
   | c :: t => (Z.of_N (cm_of m v) =? c) && cof_match m t (v + 1)%N
   end.
 
+Fixpoint lists_eqb (a b : list (list N)) : bool :=
+  match a, b with
+  | [], [] => true
+  | x :: a', y :: b' => Ns_eqb x y && lists_eqb a' b'
+  | _, _ => false
+  end.
+Fixpoint tj_cof_match (st : tj) (obs : list Z) (v : N) : bool :=
+  match obs with
+  | [] => true
+  | c :: t => (Z.of_N (tj_compof st v) =? c) && tj_cof_match st t (v + 1)%N
+  end.
+
 (* branch bits: 1 a component with more than one node, 2 more than one component, 4 >= 1024 nodes,
    8 SCCEdges with a non-empty out list, 16 no flag, 32 SCCSubnodeComponent only, 64 an empty graph *)
 Definition scc_bits (g : graph) (flags : Z) (comps outs : list (list Z)) : Z :=
@@ -194,7 +206,15 @@ Definition check_scc : parser (list Z) :=
           let w := first_false
             [ status =? 0;
               negb neg;
-              scc_ok g compsN;
+              scc_ok g compsN;                      (* the proved checker certifies this very output *)
+              (* and the output is, list for list, what the model of Tarjan's algorithm as written produces *)
+              match tarjan_run (gm_out (gm_build g)) (Z.testbit flags 1) g with
+              | Some st =>
+                  lists_eqb compsN (rev_append (tj_comps st) []) &&
+                  lists_eqb outsN (rev_append (tj_outs st) []) &&
+                  ((hascof =? 0) || tj_cof_match st cof 0%N)
+              | None => false
+              end;
               (hascof =? (if flags =? 0 then 0 else 1));
               (hascof =? 0) || ((length cof =? length g)%nat &&
                  match cm_build (g_n g) compsN 0%N (PositiveMap.empty N) with Some m => cof_match m cof 0%N | None => false end);
